@@ -15,11 +15,16 @@ import (
 // C13 — StreamStats equals batch statistics for every stream and every split.
 //
 // M-model: every accumulator of a history is shadowed by the list of values
-// it logically contains (ref.StreamModel). After every Add / Combine the
-// accumulator that was written is compared with the 400-bit batch statistics
-// of its list, and every other accumulator (the argument of Combine first of
-// all) must be bit-for-bit what it was (M-guard through the exported fields
-// and the methods).
+// it logically contains (ref.StreamModel). Whenever a statistic of an
+// accumulator is observed it is compared with the 400-bit batch statistic of
+// that list, or - if the same statistic was already observed since the
+// accumulator was last written - it must be bit-for-bit what it was (M-guard:
+// the argument of Combine first of all). The exported fields are read after
+// every step (reading a field cannot change anything); WHICH methods are
+// called WHEN is part of the history (the observation policy of the case):
+// an implementation may keep state that is brought up to date lazily, by the
+// readers, so "Add, Add, Combine, read once at the end" is a different
+// history from the one in which everything is read after every step.
 
 // c13Op is one step of a history: K=0 is acc[A].Add(X), K=1 is
 // acc[A].Combine(&acc[B]) with A != B.
@@ -30,10 +35,33 @@ type c13Op struct {
 	X mon.F `json:"x,omitempty"`
 }
 
+// Observation policies.
+const (
+	c13PolAll     = 0 // every statistic of every accumulator after every step, in the fixed order Weight, Mean, RMS, Variance, StdDev
+	c13PolWritten = 1 // after every step only the accumulator just written (all statistics in a drawn order, or one statistic only)
+	c13PolFinal   = 2 // no method is called until the last step; then every statistic of every accumulator in a drawn order
+	c13PolRandom  = 3 // after every step each accumulator is read with a per-case probability (drawn order, or one statistic only)
+)
+
+var c13PolNames = []string{"obs=all", "obs=written", "obs=final", "obs=random"}
+
 type c13Case struct {
 	NAcc int     `json:"nacc"`
 	Ops  []c13Op `json:"ops"`
 	Tag  string  `json:"tag,omitempty"` // what the generator meant (informational)
+	// Pol is the observation policy. Every drawn choice of the observer
+	// (which accumulators, which statistics, in which order, and the reads in
+	// undefined states) is a function of (OSeed, step index) only, so a
+	// history cut at a step re-executes identically.
+	Pol   int    `json:"pol,omitempty"`
+	OSeed uint64 `json:"oseed,omitempty"`
+	// End is the length of the history this one was cut from (0: len(Ops));
+	// the read of everything happens after step End-1 only.
+	End int `json:"end,omitempty"`
+	// Poke: Mean, RMS, Variance, StdDev and String are now and then called on
+	// accumulators holding no value (or one value: Variance, StdDev, String)
+	// and the results are discarded.
+	Poke bool `json:"poke,omitempty"`
 }
 
 func init() {
@@ -52,39 +80,68 @@ const (
 	c13C        = 16.0 // DESIGN section 4, policy (b)
 )
 
-// c13Obs is everything the API lets one see of an accumulator.
-type c13Obs struct {
-	Count                      uint
-	Total, Min, Max            float64
-	Weight, Mean, RMS, Var, SD float64
+// The observers (methods); the exported fields are c13Fields.
+const (
+	c13Weight = iota
+	c13Mean
+	c13RMS
+	c13Var
+	c13SD
+	c13NStat
+	c13Str // String(), only ever called without judging the result
+)
+
+var c13StatNames = [...]string{"Weight", "Mean", "RMS", "Variance", "StdDev", "", "String"}
+
+type c13Fields struct {
+	Count           uint
+	Total, Min, Max float64
 }
 
-func (a c13Obs) same(b c13Obs) bool {
+func c13ReadFields(s *stats.StreamStats) c13Fields {
+	return c13Fields{s.Count, s.Total, s.Min, s.Max}
+}
+
+func (a c13Fields) same(b c13Fields) bool {
 	eq := func(x, y float64) bool { return math.Float64bits(x) == math.Float64bits(y) }
-	return a.Count == b.Count && eq(a.Total, b.Total) && eq(a.Min, b.Min) && eq(a.Max, b.Max) &&
-		eq(a.Weight, b.Weight) && eq(a.Mean, b.Mean) && eq(a.RMS, b.RMS) && eq(a.Var, b.Var) && eq(a.SD, b.SD)
+	return a.Count == b.Count && eq(a.Total, b.Total) && eq(a.Min, b.Min) && eq(a.Max, b.Max)
 }
 
-// c13Observe reads the accumulator. Only what the statement gives a meaning
-// for n values is called: Mean and RMS need one value, Variance and StdDev
-// two (n is the model's count, not the library's).
-func c13Observe(s *stats.StreamStats, n int) (o c13Obs, pmsg string) {
-	call := func(name string, f func()) {
-		if p, v := mon.Call(f); p && pmsg == "" {
-			pmsg = fmt.Sprintf("%s() panicked: %v", name, v)
+// c13Read calls one observer.
+func c13Read(s *stats.StreamStats, k int) (v float64, pmsg string) {
+	p, pv := mon.Call(func() {
+		switch k {
+		case c13Weight:
+			v = s.Weight()
+		case c13Mean:
+			v = s.Mean()
+		case c13RMS:
+			v = s.RMS()
+		case c13Var:
+			v = s.Variance()
+		case c13SD:
+			v = s.StdDev()
+		case c13Str:
+			_ = s.String()
 		}
-	}
-	o.Count, o.Total, o.Min, o.Max = s.Count, s.Total, s.Min, s.Max
-	call("Weight", func() { o.Weight = s.Weight() })
-	if n >= 1 {
-		call("Mean", func() { o.Mean = s.Mean() })
-		call("RMS", func() { o.RMS = s.RMS() })
-	}
-	if n >= 2 {
-		call("Variance", func() { o.Var = s.Variance() })
-		call("StdDev", func() { o.SD = s.StdDev() })
+	})
+	if p {
+		pmsg = fmt.Sprintf("%s() panicked: %v", c13StatNames[k], pv)
 	}
 	return
+}
+
+// c13Allowed lists the observers the statement gives a meaning for n values:
+// Mean and RMS need one value, Variance and StdDev two (n is the model's
+// count, not the library's).
+func c13Allowed(n int) []int {
+	switch {
+	case n <= 0:
+		return []int{c13Weight}
+	case n == 1:
+		return []int{c13Weight, c13Mean, c13RMS}
+	}
+	return []int{c13Weight, c13Mean, c13RMS, c13Var, c13SD}
 }
 
 func c13ShowVals(xs []float64) string {
@@ -111,29 +168,64 @@ func (o c13Op) String() string {
 	return fmt.Sprintf("acc[%d].Combine(&acc[%d])", o.A, o.B)
 }
 
-// c13Judge executes a history and judges every step. It stops at the first
-// step that is refuted (the accumulators are not trustworthy afterwards) and
-// reports the history truncated to that step.
+// c13Look is one visit of the observer: these methods of this accumulator,
+// in this order.
+type c13Look struct {
+	acc   int
+	stats []int
+}
+
+// c13Judge executes a history and judges every observation. It stops at the
+// first step that is refuted (the accumulators are not trustworthy
+// afterwards) and reports the history truncated to that step.
 func c13Judge(w *mon.W, c c13Case) {
 	na := c.NAcc
 	if na < 1 || na > 64 {
 		return
 	}
+	pol := c.Pol
+	if pol < c13PolAll || pol > c13PolRandom {
+		return
+	}
+	end := c.End
+	if end < len(c.Ops) {
+		end = len(c.Ops)
+	}
+	drawn := pol != c13PolAll || c.Poke   // the observer makes drawn choices
 	accs := make([]stats.StreamStats, na) // zero values, adjacent in memory
 	mods := make([]*ref.StreamModel, na)
-	last := make([]c13Obs, na)
-	bothEmpty := make([]bool, na) // receiver of an empty<-empty Combine, still empty
+	lastF := make([]c13Fields, na)         // fields after the previous step
+	lastV := make([][c13NStat]float64, na) // last observed value of each statistic ...
+	lastAt := make([][c13NStat]int, na)    // ... and the step it was observed after (c13None: not since the last write)
+	argAt := make([]int, na)               // last step that took the accumulator as argument of Combine
+	rfs := make([]*ref.StreamRef, na)      // batch statistics of the model, nil after a write
+	pending := make([]int, na)             // writes since a moment reader (Mean, RMS, Variance, StdDev, String) was last called
+	pokedEmpty := make([]bool, na)         // a reader was called while it held no value (or on a part it absorbed)
+	pokedSingle := make([]bool, na)        // ... while it held one value
+	bothEmpty := make([]bool, na)          // receiver of an empty<-empty Combine, still empty
 	targets := make([]map[int]bool, na)
+	const c13None = -2
 	for i := range mods {
 		mods[i] = ref.NewStreamModel()
-		last[i], _ = c13Observe(&accs[i], 0)
+		lastF[i] = c13ReadFields(&accs[i])
+		argAt[i] = c13None
+		for k := range lastAt[i] {
+			lastAt[i][k] = c13None
+		}
 	}
-	h := mon.NewHasher().I(na)
+	h := mon.NewHasher().I(na).I(pol).B(c.Poke)
+	if drawn {
+		h = h.U(c.OSeed)
+	}
 	for _, op := range c.Ops {
 		h = h.I(op.K).I(op.A).I(op.B).F(float64(op.X))
 	}
 	nAdd, nComb, nPos, nNeg := 0, 0, 0, 0
 	maxKappa := 1.0
+	pObs := 1.0
+	if pol == c13PolRandom {
+		pObs = mon.NewRand(c.OSeed, ^uint64(0)).Pick(0.04, 0.15, 0.4)
+	}
 
 	defer func() {
 		w.HitIf(nComb > 0 && nAdd >= 2 && nPos == nAdd, "all-positive-data")
@@ -141,7 +233,221 @@ func c13Judge(w *mon.W, c c13Case) {
 		w.Distinct(h.Sum())
 	}()
 
-	for step, op := range c.Ops {
+	// per-step state of the closures below
+	step := -1
+	var op c13Op
+	var trunc c13Case
+	refuted, final, inconclusive := false, false, false
+	bad := func(kind, msg string) {
+		refuted = true
+		if step < 0 {
+			w.Violate(kind, "before the first step: "+msg, trunc)
+			return
+		}
+		w.Violate(kind, fmt.Sprintf("step %d %v: %s", step, op, msg), trunc)
+	}
+	desc := func(i int) string {
+		return fmt.Sprintf("acc[%d] holds %d values %s", i, mods[i].N(), c13ShowVals(mods[i].Vals))
+	}
+	getRef := func(i int) *ref.StreamRef {
+		if rfs[i] == nil {
+			m := mods[i]
+			rf := m.Ref()
+			rfs[i] = &rf
+			if (final || (pol == c13PolAll && m.N() <= 3)) && i == op.A {
+				// the running-sum reference against the definitional two-pass
+				// one (the accumulator written last; short lists)
+				if err := ref.StreamRefsAgree(rf, ref.StreamBatch(m.Vals)); err != nil {
+					w.R.Inconclusive(fmt.Sprintf("C13 references disagree on %v: %v", m.Vals, err))
+					inconclusive = true
+				}
+			}
+		}
+		return rfs[i]
+	}
+	// varWindow: policy (b): C n eps kappa var, kappa = sqrt(1+mean^2/var), i.e.
+	// kappa*var = sqrt(var*(var+mean^2)); plus the second-order term a
+	// backward-stable algorithm may leave on (nearly) constant data
+	varWindow := func(i int, rf *ref.StreamRef) (v, tol, kappa float64) {
+		fn := float64(rf.N)
+		v = ref.F64(rf.Var)
+		mean, msq := ref.F64(rf.Mean), ref.F64(rf.MSq)
+		k := c13C * fn * c13Eps
+		tol = k*math.Sqrt(v*(v+mean*mean)) + k*k*msq
+		kappa = rf.Kappa()
+		if kappa > maxKappa && !math.IsInf(kappa, 0) {
+			maxKappa = kappa
+		}
+		w.HitIf(kappa >= 1e6 && !math.IsInf(kappa, 0), "kappa>=1e6")
+		w.HitIf(v == 0, "zero-variance")
+		w.HitIf(pokedEmpty[i], "read-while-empty-then-judged")
+		w.HitIf(pokedSingle[i], "read-while-single-then-judged")
+		return
+	}
+	// judgeStat: one observed statistic of acc[i] against the batch statistic
+	// of the values it holds
+	judgeStat := func(i, k int, got float64) {
+		n := mods[i].N()
+		if k == c13Weight {
+			if got != float64(n) {
+				bad("Weight", fmt.Sprintf("%s: Weight()=%v", desc(i), got))
+			}
+			return
+		}
+		rf := getRef(i)
+		if inconclusive {
+			return
+		}
+		fn := float64(n)
+		switch k {
+		case c13Mean:
+			// a convex-combination update commits at most a few u*max|x|
+			// per operand
+			tol := c13C * fn * c13Eps * rf.MaxAbs
+			if e := ref.StreamAbsDiff(got, rf.Mean); !w.Err("Mean", e, tol) {
+				bad("Mean", fmt.Sprintf("%s: Mean()=%.17g, mean is %.17g (err %.3g, tol %.3g)", desc(i), got, ref.F64(rf.Mean), e, tol))
+			}
+		case c13RMS:
+			// all terms positive, relative
+			rms := ref.F64(rf.RMS)
+			tol := c13C * fn * c13Eps * rms
+			if e := ref.StreamAbsDiff(got, rf.RMS); !w.Err("RMS", e, tol) {
+				bad("RMS", fmt.Sprintf("%s: RMS()=%.17g, root mean square is %.17g (err %.3g, tol %.3g)", desc(i), got, rms, e, tol))
+			}
+		case c13Var:
+			v, tol, kappa := varWindow(i, rf)
+			if e := ref.StreamAbsDiff(got, rf.Var); !w.Err("Variance", e, tol) {
+				bad("Variance", fmt.Sprintf("%s: Variance()=%.17g, sample variance is %.17g (err %.3g, tol %.3g, kappa %.3g)", desc(i), got, v, e, tol, kappa))
+			}
+		case c13SD:
+			v, tol, _ := varWindow(i, rf)
+			sd := ref.F64(rf.Std)
+			lo := math.Sqrt(math.Max(0, v-tol)) * (1 - 4*c13Eps)
+			hi := math.Sqrt(v+tol) * (1 + 4*c13Eps)
+			stol := hi - sd
+			if got < sd {
+				stol = sd - lo
+			}
+			if e := ref.StreamAbsDiff(got, rf.Std); !w.Err("StdDev", e, stol) {
+				bad("StdDev", fmt.Sprintf("%s: StdDev()=%.17g, sample standard deviation is %.17g (err %.3g, tol %.3g)", desc(i), got, sd, e, stol))
+			}
+		}
+	}
+	// judgeFields: the exported fields of the accumulator just written
+	judgeFields := func(i int, f c13Fields) {
+		m := mods[i]
+		n := m.N()
+		if f.Count != uint(n) {
+			bad("Count", fmt.Sprintf("%s: Count=%d", desc(i), f.Count))
+		}
+		if n == 0 {
+			if f.Total != 0 {
+				bad("Total", fmt.Sprintf("%s: Total=%v", desc(i), f.Total))
+			}
+			return
+		}
+		if !(f.Min == m.Min) {
+			bad("Min", fmt.Sprintf("%s: Min=%v, smallest value is %v", desc(i), f.Min, m.Min))
+		}
+		if !(f.Max == m.Max) {
+			bad("Max", fmt.Sprintf("%s: Max=%v, largest value is %v", desc(i), f.Max, m.Max))
+		}
+		// Total: any summation order is within (n-1)u*sum|x|
+		sumAbs, _ := m.A.Float64()
+		tol := c13C * float64(n) * c13Eps * sumAbs
+		if e := ref.StreamAbsDiff(f.Total, m.S); !w.Err("Total", e, tol) {
+			bad("Total", fmt.Sprintf("%s: Total=%.17g, sum is %.17g (err %.3g, tol %.3g)", desc(i), f.Total, ref.F64(m.S), e, tol))
+		}
+	}
+	// observe: one visit. A statistic already observed since the accumulator
+	// was last written must not have moved; otherwise it is judged.
+	nchk := int64(0)
+	observe := func(lk c13Look) {
+		i := lk.acc
+		s := &accs[i]
+		n := mods[i].N()
+		for _, k := range lk.stats {
+			if k != c13Weight && pending[i] > 0 {
+				// the first moment reader after a run of writes
+				w.HitIf(n >= 2, "cold-"+c13StatNames[k])
+				w.HitIf(pending[i] >= 32, "unobserved-run>=32")
+				pending[i] = 0
+			}
+			got, pmsg := c13Read(s, k)
+			if pmsg != "" {
+				bad("panic-observe", fmt.Sprintf("acc[%d] (%d values): %s", i, n, pmsg))
+				return
+			}
+			nchk++
+			if at := lastAt[i][k]; at != c13None {
+				if math.Float64bits(got) != math.Float64bits(lastV[i][k]) {
+					kind := "bystander-modified"
+					if argAt[i] != c13None && argAt[i] > at {
+						kind = "argument-modified"
+					}
+					bad(kind, fmt.Sprintf("acc[%d] (%d values, not written since): %s() was %.17g after step %d and is now %.17g", i, n, c13StatNames[k], lastV[i][k], at, got))
+				}
+			} else {
+				judgeStat(i, k, got)
+			}
+			lastV[i][k], lastAt[i][k] = got, step
+		}
+	}
+	// poke: readers in states where the statement gives their value no
+	// meaning; the values are discarded (a panic too). Whatever they do to
+	// the accumulator shows in the judged observations of later steps.
+	poke := func(rs *mon.Rand) {
+		for i := range accs {
+			n := mods[i].N()
+			if n > 1 || rs.Intn(3) != 0 {
+				continue
+			}
+			cand := []int{c13Var, c13SD, c13Str}
+			if n == 0 {
+				cand = append(cand, c13Mean, c13RMS)
+			}
+			rs.ShuffleI(cand)
+			cand = cand[:rs.Range(1, len(cand))]
+			for _, k := range cand {
+				if _, pmsg := c13Read(&accs[i], k); pmsg != "" {
+					w.Note("undefined-state-read-panicked")
+				}
+			}
+			w.EvalN("undefined-state-read", int64(len(cand)))
+			pending[i] = 0
+			if n == 0 {
+				pokedEmpty[i] = true
+			} else {
+				pokedSingle[i] = true
+			}
+		}
+	}
+	// style of one visit: 0 fixed order, 1 drawn order, 2 one moment reader only
+	visit := func(rs *mon.Rand, i, style int) c13Look {
+		al := c13Allowed(mods[i].N())
+		switch {
+		case style == 1:
+			rs.ShuffleI(al)
+		case style == 2 && len(al) > 1:
+			al = []int{al[1+rs.Intn(len(al)-1)]}
+		}
+		return c13Look{i, al}
+	}
+
+	trunc = c13Case{NAcc: na, Tag: c.Tag, Pol: pol, OSeed: c.OSeed, End: end, Poke: c.Poke}
+	if pol == c13PolAll {
+		for i := range accs {
+			observe(c13Look{i, c13Allowed(0)})
+		}
+	}
+	if c.Poke {
+		poke(mon.NewRand(c.OSeed, 0))
+	}
+	if refuted {
+		return
+	}
+
+	for step, op = range c.Ops {
 		if op.A < 0 || op.A >= na || (op.K == 1 && (op.B < 0 || op.B >= na || op.B == op.A)) || (op.K != 0 && op.K != 1) {
 			continue // not a history of the quantified space
 		}
@@ -149,11 +455,11 @@ func c13Judge(w *mon.W, c c13Case) {
 		if op.K == 0 && (math.IsNaN(x) || math.IsInf(x, 0)) {
 			continue
 		}
-		trunc := c13Case{NAcc: na, Ops: c.Ops[:step+1], Tag: c.Tag}
-		refuted := false
-		bad := func(kind, msg string) {
-			refuted = true
-			w.Violate(kind, fmt.Sprintf("step %d %v: %s", step, op, msg), trunc)
+		trunc.Ops = c.Ops[:step+1]
+		final = step == end-1
+		var rs *mon.Rand
+		if drawn {
+			rs = mon.NewRand(c.OSeed, uint64(step)+1)
 		}
 		a := op.A
 		s, m := &accs[a], mods[a]
@@ -178,6 +484,7 @@ func c13Judge(w *mon.W, c c13Case) {
 				return
 			}
 			m.Add(x)
+			pending[a]++
 		} else {
 			b := op.B
 			o := mods[b]
@@ -189,6 +496,7 @@ func c13Judge(w *mon.W, c c13Case) {
 				w.Hit("empty-receiver")
 				w.HitIf(o.Min > 0, "positive-with-empty-side")
 				w.HitIf(o.Max < 0, "negative-with-empty-side")
+				w.HitIf(pending[b] > 0, "argument-pending-writes")
 			case o.N() == 0:
 				w.Hit("empty-argument")
 				w.HitIf(m.Min > 0, "positive-with-empty-side")
@@ -198,9 +506,16 @@ func c13Judge(w *mon.W, c c13Case) {
 				w.HitIf(o.Min < m.Min, "argument-has-new-min")
 				w.HitIf(o.Max > m.Max, "argument-has-new-max")
 				w.HitIf(o.N() > 4*m.N(), "argument-much-larger")
+				// state a lazily updating implementation has not folded yet
+				w.HitIf(pending[b] > 0, "argument-pending-writes")
+				w.HitIf(pending[a] > 0, "receiver-pending-writes")
+				w.HitIf(pending[a] >= 2 && pending[b] >= 2, "both-sides-pending-writes")
 			}
 			if o.N() > 0 {
 				bothEmpty[a] = false
+				pending[a]++
+				pokedEmpty[a] = pokedEmpty[a] || pokedEmpty[b]
+				pokedSingle[a] = pokedSingle[a] || pokedSingle[b]
 			}
 			if targets[b] == nil {
 				targets[b] = map[int]bool{}
@@ -216,122 +531,84 @@ func c13Judge(w *mon.W, c c13Case) {
 			d0 := m.Depth
 			m.Combine(o)
 			w.HitIf(d0 < 3 && m.Depth >= 3, "merge-depth>=3")
+			argAt[b] = step
+		}
+		// the receiver was written: what was observed of it is history
+		rfs[a] = nil
+		argAt[a] = c13None
+		for k := range lastAt[a] {
+			lastAt[a][k] = c13None
 		}
 
-		// M-guard: every accumulator but the receiver is untouched
+		// the exported fields, every step (reading them changes nothing):
+		// M-guard on every accumulator but the receiver, M-model on the receiver
+		nchk = 0
 		for i := range accs {
+			f := c13ReadFields(&accs[i])
 			if i == a {
-				continue
-			}
-			now, pmsg := c13Observe(&accs[i], mods[i].N())
-			if pmsg != "" {
-				bad("panic-observe", fmt.Sprintf("acc[%d] (%d values): %s", i, mods[i].N(), pmsg))
-				continue
-			}
-			if !now.same(last[i]) {
+				judgeFields(i, f)
+				nchk += 4
+			} else if !f.same(lastF[i]) {
 				kind := "bystander-modified"
 				if op.K == 1 && i == op.B {
 					kind = "argument-modified"
 				}
-				bad(kind, fmt.Sprintf("acc[%d] was %+v and is now %+v", i, last[i], now))
+				bad(kind, fmt.Sprintf("acc[%d] was %+v and is now %+v", i, lastF[i], f))
 			}
+			lastF[i] = f
 		}
 
-		// M-model: the receiver against the batch statistics of its values
-		n := m.N()
-		got, pmsg := c13Observe(s, n)
-		last[a] = got
-		if pmsg != "" {
-			bad("panic-observe", fmt.Sprintf("acc[%d] (%d values): %s", a, n, pmsg))
-			return
+		// the methods, as the observation policy of the case has it
+		pokeFirst := false
+		if c.Poke {
+			if pokeFirst = rs.Bool(); pokeFirst {
+				poke(rs)
+			}
 		}
-		rf := m.Ref()
-		if step == len(c.Ops)-1 || n <= 3 {
-			// the running-sum reference against the definitional two-pass one
-			if err := ref.StreamRefsAgree(rf, ref.StreamBatch(m.Vals)); err != nil {
-				w.R.Inconclusive(fmt.Sprintf("C13 references disagree on %v: %v", m.Vals, err))
+		var plan []c13Look
+		switch {
+		case pol == c13PolAll:
+			// every other accumulator first, then the receiver
+			for i := range accs {
+				if i != a {
+					plan = append(plan, c13Look{i, c13Allowed(mods[i].N())})
+				}
+			}
+			plan = append(plan, c13Look{a, c13Allowed(m.N())})
+		case final:
+			// everything, in a drawn order
+			for _, i := range rs.Perm(na) {
+				plan = append(plan, visit(rs, i, 1))
+			}
+			w.HitIf(pol == c13PolFinal && nAdd >= 2, "observed-only-at-end")
+		case pol == c13PolWritten:
+			plan = append(plan, visit(rs, a, rs.PickI(0, 1, 1, 2)))
+		case pol == c13PolRandom:
+			for _, i := range rs.Perm(na) {
+				if rs.Float64() < pObs {
+					plan = append(plan, visit(rs, i, rs.PickI(0, 1, 1, 2, 2)))
+				}
+			}
+		}
+		for _, lk := range plan {
+			observe(lk)
+			if inconclusive {
 				return
 			}
 		}
-		desc := func() string { return fmt.Sprintf("acc[%d] holds %d values %s", a, n, c13ShowVals(m.Vals)) }
-		nchk := int64(2)
-		if got.Count != uint(n) {
-			bad("Count", fmt.Sprintf("%s: Count=%d", desc(), got.Count))
-		}
-		if got.Weight != float64(n) {
-			bad("Weight", fmt.Sprintf("%s: Weight()=%v", desc(), got.Weight))
-		}
-		if n == 0 {
-			nchk++
-			if got.Total != 0 {
-				bad("Total", fmt.Sprintf("%s: Total=%v", desc(), got.Total))
-			}
-		}
-		if n >= 1 {
-			nchk += 5
-			fn := float64(n)
-			if !(got.Min == rf.Min) {
-				bad("Min", fmt.Sprintf("%s: Min=%v, smallest value is %v", desc(), got.Min, rf.Min))
-			}
-			if !(got.Max == rf.Max) {
-				bad("Max", fmt.Sprintf("%s: Max=%v, largest value is %v", desc(), got.Max, rf.Max))
-			}
-			// Total: any summation order is within (n-1)u*sum|x|
-			tol := c13C * fn * c13Eps * rf.SumAbs
-			if e := ref.StreamAbsDiff(got.Total, rf.Total); !w.Err("Total", e, tol) {
-				bad("Total", fmt.Sprintf("%s: Total=%.17g, sum is %.17g (err %.3g, tol %.3g)", desc(), got.Total, ref.F64(rf.Total), e, tol))
-			}
-			// Mean: a convex-combination update commits at most a few
-			// u*max|x| per operand
-			tol = c13C * fn * c13Eps * rf.MaxAbs
-			if e := ref.StreamAbsDiff(got.Mean, rf.Mean); !w.Err("Mean", e, tol) {
-				bad("Mean", fmt.Sprintf("%s: Mean()=%.17g, mean is %.17g (err %.3g, tol %.3g)", desc(), got.Mean, ref.F64(rf.Mean), e, tol))
-			}
-			// RMS: all terms positive, relative
-			rms := ref.F64(rf.RMS)
-			tol = c13C * fn * c13Eps * rms
-			if e := ref.StreamAbsDiff(got.RMS, rf.RMS); !w.Err("RMS", e, tol) {
-				bad("RMS", fmt.Sprintf("%s: RMS()=%.17g, root mean square is %.17g (err %.3g, tol %.3g)", desc(), got.RMS, rms, e, tol))
-			}
-		}
-		if n >= 2 {
-			nchk += 2
-			fn := float64(n)
-			v, mean, msq := ref.F64(rf.Var), ref.F64(rf.Mean), ref.F64(rf.MSq)
-			// policy (b): C n eps kappa var, kappa = sqrt(1+mean^2/var), i.e.
-			// kappa*var = sqrt(var*(var+mean^2)); plus the second-order term a
-			// backward-stable algorithm may leave on (nearly) constant data
-			k := c13C * fn * c13Eps
-			tol := k*math.Sqrt(v*(v+mean*mean)) + k*k*msq
-			kappa := rf.Kappa()
-			if kappa > maxKappa && !math.IsInf(kappa, 0) {
-				maxKappa = kappa
-			}
-			w.HitIf(kappa >= 1e6 && !math.IsInf(kappa, 0), "kappa>=1e6")
-			w.HitIf(v == 0, "zero-variance")
-			if e := ref.StreamAbsDiff(got.Var, rf.Var); !w.Err("Variance", e, tol) {
-				bad("Variance", fmt.Sprintf("%s: Variance()=%.17g, sample variance is %.17g (err %.3g, tol %.3g, kappa %.3g)", desc(), got.Var, v, e, tol, kappa))
-			}
-			sd := ref.F64(rf.Std)
-			lo := math.Sqrt(math.Max(0, v-tol)) * (1 - 4*c13Eps)
-			hi := math.Sqrt(v+tol) * (1 + 4*c13Eps)
-			stol := hi - sd
-			if got.SD < sd {
-				stol = sd - lo
-			}
-			if e := ref.StreamAbsDiff(got.SD, rf.Std); !w.Err("StdDev", e, stol) {
-				bad("StdDev", fmt.Sprintf("%s: StdDev()=%.17g, sample standard deviation is %.17g (err %.3g, tol %.3g)", desc(), got.SD, sd, e, stol))
-			}
+		if c.Poke && !pokeFirst {
+			poke(rs)
 		}
 		w.EvalN("statistic-checked", nchk)
 		if refuted {
 			return
 		}
-		if step == len(c.Ops)-1 && n >= 2 && nComb > 0 && w.WantSample() {
+		if n := m.N(); final && n >= 2 && nComb > 0 && w.WantSample() && lastAt[a][c13Mean] == step && lastAt[a][c13Var] == step {
+			rf := getRef(a)
 			w.Sample(map[string]any{"tag": c.Tag, "accumulators": na, "adds": nAdd, "combines": nComb,
 				"final_acc": a, "final_count": n, "merge_depth": m.Depth,
-				"Mean": got.Mean, "Mean_ref": ref.F64(rf.Mean), "Variance": got.Var, "Variance_ref": ref.F64(rf.Var),
-				"Min": got.Min, "Max": got.Max, "max_kappa": maxKappa})
+				"Mean": lastV[a][c13Mean], "Mean_ref": ref.F64(rf.Mean), "Variance": lastV[a][c13Var], "Variance_ref": ref.F64(rf.Var),
+				"Min": lastF[a].Min, "Max": lastF[a].Max, "max_kappa": maxKappa})
 		}
 	}
 }
@@ -711,20 +988,69 @@ func c13GenRepeat(rng *mon.Rand) c13Case {
 
 // ---------------------------------------------------------------------------
 
+// c13Watch gives a history its observation policy. poke: every pokeIn-th
+// case on average also gets the reads in undefined states (0: never).
+func c13Watch(rng *mon.Rand, c c13Case, pol, pokeIn int) c13Case {
+	c.Pol = pol
+	c.Poke = pokeIn > 0 && rng.Intn(pokeIn) == 0
+	c.Tag += "/" + c13PolNames[pol]
+	if c.Poke {
+		c.Tag += "+undefined-reads"
+	}
+	if pol != c13PolAll || c.Poke {
+		c.OSeed = rng.Uint64() >> 12 // exact in any JSON reader
+	}
+	return c
+}
+
+// c13DrawPol: the policy of a random history.
+func c13DrawPol(rng *mon.Rand) int {
+	return rng.PickI(c13PolAll, c13PolAll, c13PolWritten, c13PolFinal, c13PolFinal, c13PolFinal,
+		c13PolRandom, c13PolRandom, c13PolRandom, c13PolRandom)
+}
+
 func c13Run(r *mon.Run) {
-	r.Rule("histories of Add and Combine over up to 6 accumulators of up to 200 logical values each; after every step the written accumulator is compared with the 400-bit batch statistics of the values it logically contains (Count, Weight exact; Min, Max equal; Total within 16 n eps sum|x|; Mean within 16 n eps max|x|; RMS within 16 n eps relative; for n>=2 Variance within 16 n eps kappa var (+ second-order term), StdDev the square root of that window) and every other accumulator must be bit-identical to its last observation. Enumerated: every split point of streams of length <=12 in three arrival/merge orders x all value kinds; every pair of split points of streams <=8 (thorough 12) x four merge orders; every sequence of 5 (thorough 6) operations from {Add to one of 3, Combine of an ordered pair of 3} on positive and on negative data. Random: free, merge-tree, empty-side and repeated-source histories. Non-trivial: the history hits a class (empty side, both-empty-then-add, new extreme, depth, kappa, repeat source ...); distinct by hash of the operation list.")
+	r.Rule("histories of Add and Combine over up to 6 accumulators of up to 200 logical values each, each under an observation policy (which methods are called when is part of the history, since an implementation may update state lazily in its readers): all statistics of all accumulators after every step in a fixed order / only the accumulator just written / nothing until the last step / each accumulator with a per-case probability, the last three with the observers in a drawn order or a single observer only (a 'cold' Variance, StdDev, RMS or Mean), and everything read after the last step. The exported fields are read after every step. An observed statistic is compared with the 400-bit batch statistic of the values the accumulator logically contains (Count, Weight exact; Min, Max equal; Total within 16 n eps sum|x|; Mean within 16 n eps max|x|; RMS within 16 n eps relative; for n>=2 Variance within 16 n eps kappa var (+ second-order term), StdDev the square root of that window); a statistic already observed since the accumulator was last written, and the fields of every accumulator but the receiver, must be bit-identical to what they were. In a share of the cases Mean, RMS, Variance, StdDev and String are also called where the statement gives them no meaning (no value; one value for Variance, StdDev, String) and the results discarded. Enumerated: every Add-only stream length 1..200 x value kind read once at the end; every split point of streams of length <=12 in three arrival/merge orders x all value kinds, once observed after every step, once only at the end, once under a drawn policy; every pair of split points of streams <=8 (thorough 12) x four merge orders likewise; every sequence of 5 (thorough 6) operations from {Add to one of 3, Combine of an ordered pair of 3} on positive and on negative data observed after every step, and every such sequence of 1..5 (6) operations observed only at the end. Random: free, merge-tree, empty-side and repeated-source histories under drawn policies. Non-trivial: the history hits a class (empty side, both-empty-then-add, new extreme, depth, kappa, repeat source, pending writes at a Combine, cold reader ...); distinct by hash of the operation list and the observation policy.")
 	r.Assume("values are finite with 1e-72 <= |x| <= 1e72 or zero: squares neither overflow nor underflow",
 		"offset/spread (the condition number kappa of the variance) is at most about 1e10, the design's hostile range",
-		"statistics of an accumulator holding no value are not judged beyond Count=0, Total=0; Variance and StdDev only from two values",
+		"statistics of an accumulator holding no value are not judged beyond Count=0, Total=0; Variance and StdDev only from two values; a reader called in such a state may return anything (or panic) but must leave the accumulator usable",
+		"calling a reader does not change the value any reader returns later (a statistic read twice with no Add/Combine of that accumulator in between is bit-identical)",
 		"s.Combine(s) is outside the quantifier ('any two') and not generated")
 	r.Gate("empty-receiver", "empty-argument", "both-empty-then-add", "all-positive-data", "all-negative-data",
 		"positive-with-empty-side", "negative-with-empty-side", "merge-depth>=3", "kappa>=1e6", "repeat-source",
-		"argument-has-new-min", "argument-has-new-max")
+		"argument-has-new-min", "argument-has-new-max",
+		"argument-pending-writes", "receiver-pending-writes", "both-sides-pending-writes", "observed-only-at-end",
+		"unobserved-run>=32", "cold-Mean", "cold-RMS", "cold-Variance", "cold-StdDev", "add-only-read-once",
+		"read-while-empty-then-judged", "read-while-single-then-judged")
 	if err := ref.StreamSelfTest(); err != nil {
 		r.Inconclusive("reference self-test failed: " + err.Error())
 		return
 	}
 	nk := len(c13KindNames)
+
+	// 0. plain streams: Add only, one accumulator, every statistic read once
+	// at the end (in a drawn order)
+	r.Exhaustive("every stream length 1..200 for each of the value kinds: Add only, nothing read until the end")
+	r.Parallel("stream", c13MaxCount*nk, func(w *mon.W, i int) {
+		n, kind := 1+i/nk, i%nk
+		c := c13Case{NAcc: 1, Tag: fmt.Sprintf("stream n=%d/%s", n, c13KindNames[kind])}
+		for _, v := range c13Vals(w.Rng, kind, n) {
+			c.Ops = append(c.Ops, c13Add(0, v))
+		}
+		w.HitIf(n >= 2, "add-only-read-once")
+		c13Judge(w, c13Watch(w.Rng, c, c13PolFinal, 8))
+	})
+
+	// the three passes of the enumerated split classes
+	passPol := func(w *mon.W, pass int) int {
+		switch pass {
+		case 0:
+			return c13PolAll
+		case 1:
+			return c13PolFinal
+		}
+		return w.Rng.PickI(c13PolWritten, c13PolRandom, c13PolRandom)
+	}
 
 	// 1. every split point of every stream length <= 12
 	type split struct{ L, k, order, kind int }
@@ -738,12 +1064,13 @@ func c13Run(r *mon.Run) {
 			}
 		}
 	}
-	r.Exhaustive("every split point k=0..L of every stream length L<=12, merged as a<-b, b<-a and after interleaved arrival, for each of the value kinds")
-	r.Parallel("split", len(sp), func(w *mon.W, i int) {
-		s := sp[i]
+	r.Exhaustive("every split point k=0..L of every stream length L<=12, merged as a<-b, b<-a and after interleaved arrival, for each of the value kinds; each observed after every step, only at the end, and under a drawn policy")
+	r.Parallel("split", 3*len(sp), func(w *mon.W, i int) {
+		s := sp[i/3]
 		vals := c13Vals(w.Rng, s.kind, s.L)
 		w.HitIf(s.k == 0 || s.k == s.L, "split-at-end")
-		c13Judge(w, c13SplitCase(vals, s.k, s.order, fmt.Sprintf("split L=%d k=%d order=%d/%s", s.L, s.k, s.order, c13KindNames[s.kind])))
+		c := c13SplitCase(vals, s.k, s.order, fmt.Sprintf("split L=%d k=%d order=%d/%s", s.L, s.k, s.order, c13KindNames[s.kind]))
+		c13Judge(w, c13Watch(w.Rng, c, passPol(w, i%3), 6))
 	})
 
 	// 2. every pair of split points, both associations
@@ -759,9 +1086,9 @@ func c13Run(r *mon.Run) {
 			}
 		}
 	}
-	r.Exhaustive(fmt.Sprintf("every pair of split points i<=j of every stream length L<=%d, merged as (a<-b)<-c, a<-(b<-c), (c<-b)<-a, (a<-c)<-b", maxL3))
-	r.Parallel("split3", len(sp3), func(w *mon.W, idx int) {
-		s := sp3[idx]
+	r.Exhaustive(fmt.Sprintf("every pair of split points i<=j of every stream length L<=%d, merged as (a<-b)<-c, a<-(b<-c), (c<-b)<-a, (a<-c)<-b; each observed after every step, only at the end, and under a drawn policy", maxL3))
+	r.Parallel("split3", 3*len(sp3), func(w *mon.W, idx int) {
+		s := sp3[idx/3]
 		kind := c13PickKind(w.Rng)
 		vals := c13Vals(w.Rng, kind, s.L)
 		c := c13Case{NAcc: 3, Tag: fmt.Sprintf("split3 L=%d i=%d j=%d assoc=%d/%s", s.L, s.i, s.j, s.assoc, c13KindNames[kind])}
@@ -784,7 +1111,7 @@ func c13Run(r *mon.Run) {
 		default:
 			c.Ops = append(c.Ops, c13Comb(0, 2), c13Comb(0, 1))
 		}
-		c13Judge(w, c)
+		c13Judge(w, c13Watch(w.Rng, c, passPol(w, idx%3), 6))
 	})
 
 	// 3. every operation sequence of a fixed length over three accumulators
@@ -792,22 +1119,15 @@ func c13Run(r *mon.Run) {
 	seqLen := r.Pick(5, 6)
 	alphabet := []c13Op{c13Add(0, 0), c13Add(1, 0), c13Add(2, 0),
 		c13Comb(0, 1), c13Comb(0, 2), c13Comb(1, 0), c13Comb(1, 2), c13Comb(2, 0), c13Comb(2, 1)}
-	nseq := 1
-	for i := 0; i < seqLen; i++ {
-		nseq *= len(alphabet)
-	}
-	r.Exhaustive(fmt.Sprintf("every sequence of %d operations (and so every shorter one) from {acc[i].Add, acc[i].Combine(&acc[j]), i!=j} over 3 accumulators, once on positive and once on negative values", seqLen))
-	r.Parallel("enum-ops", 2*nseq, func(w *mon.W, idx int) {
-		neg := idx%2 == 1
-		code := idx / 2
+	enumCase := func(w *mon.W, code, length int, neg bool, tag string) c13Case {
 		kind := w.Rng.PickI(0, 3, 6, 9, 13)
-		vals := c13Vals(w.Rng, kind, seqLen)
-		c := c13Case{NAcc: 3, Tag: "enum-ops/" + c13KindNames[kind]}
+		vals := c13Vals(w.Rng, kind, length)
+		c := c13Case{NAcc: 3, Tag: tag + "/" + c13KindNames[kind]}
 		if neg {
 			c.Tag += "/negated"
 		}
 		vi := 0
-		for s := 0; s < seqLen; s++ {
+		for s := 0; s < length; s++ {
 			op := alphabet[code%len(alphabet)]
 			code /= len(alphabet)
 			if op.K == 0 {
@@ -820,12 +1140,41 @@ func c13Run(r *mon.Run) {
 			}
 			c.Ops = append(c.Ops, op)
 		}
-		c13Judge(w, c)
+		return c
+	}
+	nseq := 1
+	for i := 0; i < seqLen; i++ {
+		nseq *= len(alphabet)
+	}
+	r.Exhaustive(fmt.Sprintf("every sequence of %d operations (and so every shorter one) from {acc[i].Add, acc[i].Combine(&acc[j]), i!=j} over 3 accumulators, once on positive and once on negative values, everything observed after every step", seqLen))
+	r.Parallel("enum-ops", 2*nseq, func(w *mon.W, idx int) {
+		c13Judge(w, c13Watch(w.Rng, enumCase(w, idx/2, seqLen, idx%2 == 1, "enum-ops"), c13PolAll, 8))
 	})
 
-	// 4. random histories (3 000 quick / 50 000 thorough)
-	r.Parallel("hist-free", r.Pick(1200, 20000), func(w *mon.W, i int) { c13Judge(w, c13GenFree(w.Rng)) })
-	r.Parallel("hist-tree", r.Pick(800, 14000), func(w *mon.W, i int) { c13Judge(w, c13GenTree(w.Rng)) })
-	r.Parallel("hist-empties", r.Pick(500, 8000), func(w *mon.W, i int) { c13Judge(w, c13GenEmpties(w.Rng, i)) })
-	r.Parallel("hist-repeat", r.Pick(500, 8000), func(w *mon.W, i int) { c13Judge(w, c13GenRepeat(w.Rng)) })
+	// 3b. the same alphabet, every sequence of every length up to that one,
+	// with no method called before the end
+	var first []int // first[l-1]: index of the first sequence of length l
+	ntot, pw := 0, 1
+	for l := 1; l <= seqLen; l++ {
+		pw *= len(alphabet)
+		first = append(first, ntot)
+		ntot += pw
+	}
+	r.Exhaustive(fmt.Sprintf("every sequence of 1..%d operations from the same alphabet (positive and negative values alternating with the sequence number), nothing observed but the exported fields until the end", seqLen))
+	r.Parallel("enum-ops-final", ntot, func(w *mon.W, idx int) {
+		code, length := idx, 1
+		for length < seqLen && code >= first[length] {
+			length++
+		}
+		code -= first[length-1]
+		c13Judge(w, c13Watch(w.Rng, enumCase(w, code, length, idx%2 == 1, "enum-ops-final"), c13PolFinal, 8))
+	})
+
+	// 4. random histories (3 000 quick / 50 000 thorough), each under a drawn
+	// observation policy
+	watch := func(w *mon.W, c c13Case) { c13Judge(w, c13Watch(w.Rng, c, c13DrawPol(w.Rng), 3)) }
+	r.Parallel("hist-free", r.Pick(1200, 20000), func(w *mon.W, i int) { watch(w, c13GenFree(w.Rng)) })
+	r.Parallel("hist-tree", r.Pick(800, 14000), func(w *mon.W, i int) { watch(w, c13GenTree(w.Rng)) })
+	r.Parallel("hist-empties", r.Pick(500, 8000), func(w *mon.W, i int) { watch(w, c13GenEmpties(w.Rng, i)) })
+	r.Parallel("hist-repeat", r.Pick(500, 8000), func(w *mon.W, i int) { watch(w, c13GenRepeat(w.Rng)) })
 }
